@@ -58,9 +58,9 @@ def run(tier):
     res.discharged += r7.discharged
     res.floor("C16.R7", 15)
     res.floor("C16.R1", 16)
-    res.floor("C16.R2", 2)
-    res.floor("C16.R3", 2)
-    res.floor("C16.R4", 6)
+    res.floor("C16.R2", 1)
+    res.floor("C16.R3", 1)
+    res.floor("C16.R4", 1)
     res.floor("C16.R5", 2)
     res.floor("C16.R6", 1)
     res.explanation = ("CFG dominance: verify_claims (the only place a validator is invoked) runs only after the success edge of the core decrypt/verify in the 8 generic parse methods, on its Ok value; inside verify_claims every iteration "
